@@ -105,6 +105,7 @@ static uint32_t TXID, RXID;
 #define C19_CLIENT 0
 #endif
 static uint32_t *pCobTx, *pCobRx; static uint8_t *pSrvNode;
+static uint32_t MSPT = 1;       /* --opt slow=1: 100 Hz timer; the timeouts handed to the API are then 10 ms per tick of the case description */
 static int FAILED;
 static long n_closed;
 static int noleak;                       /* --opt noleak=1 (triage only): no timer accounting at completion, shows what a leftover timer does later */
@@ -181,8 +182,8 @@ static void csdo_cb(CO_CSDO *c, uint16_t idx, uint8_t sub, uint32_t code)
 {
     w_cb(CB_CSDO_DONE, ((uint32_t)idx << 8) | sub, code, 0);
     if (H.chain) {
-        CO_ERR e = H.chain == 1 ? COCSdoRequestUpload(c, CO_DEV(CH_IDX, CH_SUB), ChainBuf, sizeof ChainBuf, chain_cb, CH_TO)
-                                : COCSdoRequestDownload(c, CO_DEV(CH_IDX, CH_SUB), ChainBuf, 3, chain_cb, CH_TO);
+        CO_ERR e = H.chain == 1 ? COCSdoRequestUpload(c, CO_DEV(CH_IDX, CH_SUB), ChainBuf, sizeof ChainBuf, chain_cb, CH_TO * MSPT)
+                                : COCSdoRequestDownload(c, CO_DEV(CH_IDX, CH_SUB), ChainBuf, 3, chain_cb, CH_TO * MSPT);
         H.chain = 0; H.chained = 1; H.chain_err = (int)e; H.chain_seen = 0;
         mc_log("      request from inside the completion callback -> %d\n", (int)e);
     }
@@ -453,8 +454,8 @@ static void tr_request(void)
     if (c == 0) { FAIL("csdo-request-refused", "COCSdoFind returns NULL for the enabled client 0 before transfer %d", H.seq); return; }
     H.act0 = tmr_used_act(); H.tim0 = tmr_used_tim();
     w_obs_clear();
-    if (H.t.dir == UP) err = COCSdoRequestUpload(c, CO_DEV(H.idx, H.sub), UB[H.seq] + GUARD, (uint32_t)H.t.size, csdo_cb, (uint32_t)H.t.to);
-    else               err = COCSdoRequestDownload(c, CO_DEV(H.idx, H.sub), UB[H.seq] + GUARD, (uint32_t)H.t.size, csdo_cb, (uint32_t)H.t.to);
+    if (H.t.dir == UP) err = COCSdoRequestUpload(c, CO_DEV(H.idx, H.sub), UB[H.seq] + GUARD, (uint32_t)H.t.size, csdo_cb, (uint32_t)H.t.to * MSPT);
+    else               err = COCSdoRequestDownload(c, CO_DEV(H.idx, H.sub), UB[H.seq] + GUARD, (uint32_t)H.t.size, csdo_cb, (uint32_t)H.t.to * MSPT);
     mc_steps++;
     if (mc_verbose) { char w[96]; snprintf(w, sizeof w, "request %s %04X:%02X %d bytes timeout %d -> %d", H.t.dir == UP ? "upload" : "download", H.idx, H.sub, H.t.size, H.t.to, (int)err); log_obs(w); }
     observe(&r); if (FAILED) return;
@@ -486,8 +487,8 @@ static void busy_requests(void)
 {
     React r; CO_ERR e1, e2;
     w_obs_clear();
-    e1 = COCSdoRequestUpload(CS, CO_DEV(0x2FF0, 0x7F), OtherBuf, sizeof OtherBuf, csdo_cb, 3);
-    e2 = COCSdoRequestDownload(CS, CO_DEV(0x2FF1, 0x7E), OtherBuf, 3, csdo_cb, 3);
+    e1 = COCSdoRequestUpload(CS, CO_DEV(0x2FF0, 0x7F), OtherBuf, sizeof OtherBuf, csdo_cb, 3 * MSPT);
+    e2 = COCSdoRequestDownload(CS, CO_DEV(0x2FF1, 0x7E), OtherBuf, 3, csdo_cb, 3 * MSPT);
     mc_steps += 2;
     if (mc_verbose) log_obs("two requests while busy");
     if (e1 != CO_ERR_SDO_BUSY || e2 != CO_ERR_SDO_BUSY) FAIL("csdo-busy", "requests on the busy client return %d (upload) and %d (download), expected CO_ERR_SDO_BUSY (%d)", (int)e1, (int)e2, (int)CO_ERR_SDO_BUSY);
@@ -700,8 +701,8 @@ static void disabled_case(int variant, int dir, int size)
     c = COCSdoFind(&Node, C19_CLIENT);
     if (c != 0) FAIL("csdo-disabled", "COCSdoFind returns the client although 1280h:1 = %08X, 1280h:2 = %08X", (*pCobTx), (*pCobRx));
     w_obs_clear();
-    if (dir == UP) err = COCSdoRequestUpload(&Node.CSdo[C19_CLIENT], CO_DEV(H.idx, H.sub), UB[0] + GUARD, (uint32_t)size, csdo_cb, 5);
-    else           err = COCSdoRequestDownload(&Node.CSdo[C19_CLIENT], CO_DEV(H.idx, H.sub), UB[0] + GUARD, (uint32_t)size, csdo_cb, 5);
+    if (dir == UP) err = COCSdoRequestUpload(&Node.CSdo[C19_CLIENT], CO_DEV(H.idx, H.sub), UB[0] + GUARD, (uint32_t)size, csdo_cb, 5 * MSPT);
+    else           err = COCSdoRequestDownload(&Node.CSdo[C19_CLIENT], CO_DEV(H.idx, H.sub), UB[0] + GUARD, (uint32_t)size, csdo_cb, 5 * MSPT);
     mc_steps++;
     if (mc_verbose) { char w[64]; snprintf(w, sizeof w, "request on the disabled client -> %d", (int)err); log_obs(w); }
     observe(&r);
@@ -739,7 +740,8 @@ static void all_candidates(int dir, int shard, int nshard)
 static void setup(void)
 {
     w_regions_clear();
-    nc_defaults(); NC.csdo = C19_CLIENT ? 2 : 1;
+    MSPT = mc_opt("slow", 0) ? 10 : 1;
+    nc_defaults(); NC.csdo = C19_CLIENT ? 2 : 1; NC.freq = 1000 / MSPT;
     nc_build();
 #if C19_CLIENT
     pCobTx = &Csdo2CobTx; pCobRx = &Csdo2CobRx; pSrvNode = &Csdo2Node;
